@@ -1,5 +1,7 @@
 import Mochi.Model.Broker
 import Mochi.Lemmas.AckRes
+import Mochi.Lemmas.BrokerInbound
+import Mochi.Props.C08Demo
 /-!
 # C08 — Inbound QoS 2 messages are forwarded exactly once
 
@@ -10,6 +12,14 @@ Proved: while the PUBREC record exists a retransmitted PUBLISH is **not** forwar
 record survives; PUBREL removes the record.
 Known finding F08 (recorded): the answer to the retransmission is PUBREC with reason 0x91 "packet
 identifier in use" — a failure code — for MQTT 5 (`C08_retransmit_reason`).
+
+Operation and history level (sections below; lemmas in `Mochi/Lemmas/BrokerInbound.lean`, the survival walk in
+`Mochi/Lemmas/BrokerInboundWalk.lean`, the concrete history and the counterexamples in `Mochi/Props/C08Demo.lean`):
+`C08_inbound_record_survives_step/_run/_history` (the open exchange survives every op — all 12 kinds — not in `InEnds`),
+`C08_accepted_qos2_shape/_tail/_opens` (PUBREC 0x00 first, ONE `publishToSubscribers` call, the record filed),
+`C08_retransmit_not_forwarded_op(_quiet)` (the retransmission: PUBREC 0x91 on its own connection, nothing routed or
+retained, every other object untouched), `C08_forwarded_exactly_once(_seq)` (histories
+`pre ++ [PUBLISH q2 k] ++ mid ++ [PUBREL k]`).
 -/
 namespace Mochi.Broker
 open Mochi.Topics
@@ -56,5 +66,311 @@ theorem C08_pubrel_releases (c : Client) (id : Nat) : flGet (flDelete c id).1 id
   intro m hm
   have := (List.mem_filter.mp hm).2
   simpa using this
+
+/-! ## The open inbound exchange survives every op that does not end it (all 12 op kinds, all histories)
+
+Definitions (`Mochi/Lemmas/BrokerInbound.lean`, `BrokerInboundWalk.lean`): `InOpen s cid k` — the object REGISTERED under
+`cid` holds under packet identifier `k` an in-flight record of type 5 (PUBREC) that is not deferred by flow control
+(`0 ≤ expiry`; `processPublish` files it with `expiry = NOW + maximum`); `InEnds s cid k op` (decidable) — the ops that may
+end the exchange in state `s`: the client's PUBREL `k`; PUBACK / PUBCOMP / PUBREC `k` from the client (one in-flight map for
+both directions, F10 — PUBREC `k` with a success code REPLACES the record by a PUBREL record and is answered PUBREL);
+an admitted CONNECT for `cid` with Clean Start or over an MQTT 3 clean session; the `clients` tick when the session is
+due; the `inflight` tick when the record is due; the end of a connection of `cid` whose session ends with it (drop,
+DISCONNECT, an erroring packet, a parked handler's clean-up).  NOT in the list: a PUBLISH of the client under the same
+identifier at any QoS (it is answered PUBREC 0x91 and nothing else happens — `processPublish`, server.go:920-925; for
+QoS 1 the answer is a PUBREC too, to an MQTT 3 client with reason 0 on the wire); an outbound delivery to the client
+(`NextPacketID` skips identifiers in use: `nextPacketID_fresh`). -/
+
+/-- **C08, one op.**  The inbound exchange `k` of `cid` is still open after EVERY op — of any of the 12 kinds — that
+    `InEnds s cid k` does not list (after a resumption / take-over the record is in the NEW object). -/
+theorem C08_inbound_record_survives_step (s : Server) (op : Op) (cid : Str) (k : Nat) (hw : WF s)
+    (hsync : SyncInv s) (hf : OpFresh s op) (h : InOpen s cid k) (hne : ¬ InEnds s cid k op) :
+    InOpen (step s op).1 cid k := by
+  obtain ⟨m, hm⟩ := (InOpen_iff s cid k).mp h
+  exact (InOpen_iff _ cid k).mpr ⟨m, inbound_record_survives_step s op cid k m hw hsync hf hm hne⟩
+
+/-- … and it is the very same record (`InOpenRec s cid k m`: the registered object's record under `k` is `m`) -/
+theorem C08_inbound_record_same_step (s : Server) (op : Op) (cid : Str) (k : Nat) (m : Msg) (hw : WF s)
+    (hsync : SyncInv s) (hf : OpFresh s op) (h : InOpenRec s cid k m) (hne : ¬ InEnds s cid k op) :
+    InOpenRec (step s op).1 cid k m :=
+  inbound_record_survives_step s op cid k m hw hsync hf h hne
+
+/-- **C08, op lists** (`InNoEnds`: no op of the list is in `InEnds` in the state it is applied to) -/
+theorem C08_inbound_record_survives_run (s : Server) (ops : List Op) (cid : Str) (k : Nat) (hw : WF s)
+    (hsync : SyncInv s) (hf : OpsFresh s ops) (hok : OpsSchedOK s ops) (h : InOpen s cid k)
+    (hne : InNoEnds s cid k ops) : InOpen (run s ops) cid k := by
+  obtain ⟨m, hm⟩ := (InOpen_iff s cid k).mp h
+  exact (InOpen_iff _ cid k).mpr ⟨m, inbound_record_survives_run s ops cid k m hw hsync hf hok hm hne⟩
+
+theorem q08_OpsFresh_app {s : Server} {a b : List Op} (h : OpsFresh s (a ++ b)) :
+    OpsFresh s a ∧ OpsFresh (run s a) b := by
+  induction a generalizing s with
+  | nil => exact ⟨trivial, h⟩
+  | cons x xs ih =>
+    obtain ⟨h1, h2⟩ := ih h.2
+    exact ⟨⟨h.1, h1⟩, h2⟩
+
+theorem q08_OpsSchedOK_app {s : Server} {a b : List Op} (h : OpsSchedOK s (a ++ b)) :
+    OpsSchedOK s a ∧ OpsSchedOK (run s a) b := by
+  induction a generalizing s with
+  | nil => exact ⟨trivial, h⟩
+  | cons x xs ih =>
+    obtain ⟨h1, h2⟩ := ih h.2
+    exact ⟨⟨h.1, h1⟩, h2⟩
+
+theorem q08_run_append (s : Server) (a b : List Op) : run s (a ++ b) = run (run s a) b := by
+  unfold run; rw [List.foldl_append]
+
+/-- **C08, histories from the initial state**: once the exchange is open (after `pre`), it is open after any
+    continuation none of whose ops ends it — through disconnections, resumptions and take-overs. -/
+theorem C08_inbound_record_survives_history (caps : Caps) (pre ops : List Op) (cid : Str) (k : Nat)
+    (hf : OpsFresh (init caps) (pre ++ ops)) (hok : OpsSchedOK (init caps) (pre ++ ops))
+    (h : InOpen (run (init caps) pre) cid k) (hne : InNoEnds (run (init caps) pre) cid k ops) :
+    InOpen (run (init caps) (pre ++ ops)) cid k := by
+  rw [q08_run_append]
+  obtain ⟨f1, f2⟩ := q08_OpsFresh_app hf
+  obtain ⟨o1, o2⟩ := q08_OpsSchedOK_app hok
+  exact C08_inbound_record_survives_run _ ops cid k (WF_run caps pre f1) (SyncInv_run caps pre f1 o1) f2 o2 h hne
+
+/-! ## The accepted QoS 2 PUBLISH, and its retransmission while the exchange is open -/
+
+/-- **C08, the accepted publish.**  An inbound QoS 2 PUBLISH that passes the gates `AcceptedQ2` (live network client,
+    valid non-empty topic, identifier ≠ 0, receive quota left, write permission, NO in-flight record under the
+    identifier, no hook mode, the broker grants QoS 2), on the connection of client object `i`: the op's outputs are
+    PUBREC with reason 0x00 to the publisher FIRST, then what ONE call of `publishToSubscribers` writes
+    (`q2Routed … = publishToSubscribers (pubrecFiled (retainedState s m) i id) m`, `m = inboundMsg …`: the state with the
+    retained store updated and the PUBREC record filed), then the release tail (the publisher's own deferred messages,
+    `C08_accepted_qos2_tail`). -/
+theorem C08_accepted_qos2_shape (s : Server) (conn i : Nat) (dup retain : Bool) (id : Nat) (topic payload : Str) (me : Nat)
+    (hc : assocGet s.connOf conn = some i) (h : AcceptedQ2 s i id topic) :
+    step s (.recv conn (.publish 2 dup retain id topic payload me none)) =
+      ((nextImmediate (nextImmediate (q2Routed s i dup retain id topic payload me).1 i).1 i).1,
+       [Out.wrote (getObj s i).conn (.ack (getObj s i).ver 5 id 0)] ++ (q2Routed s i dup retain id topic payload me).2 ++
+       (nextImmediate (q2Routed s i dup retain id topic payload me).1 i).2 ++
+       (nextImmediate (nextImmediate (q2Routed s i dup retain id topic payload me).1 i).1 i).2) :=
+  step_recv_publish_q2 s conn i dup retain id topic payload me hc h
+
+/-- the release tail of that op: at most two outputs, all on the PUBLISHER's connection -/
+theorem C08_accepted_qos2_tail (s : Server) (i : Nat) (dup retain : Bool) (id : Nat) (topic payload : Str) (me : Nat) :
+    ((nextImmediate (q2Routed s i dup retain id topic payload me).1 i).2 ++
+      (nextImmediate (nextImmediate (q2Routed s i dup retain id topic payload me).1 i).1 i).2).length ≤ 2 ∧
+    ∀ x ∈ (nextImmediate (q2Routed s i dup retain id topic payload me).1 i).2 ++
+      (nextImmediate (nextImmediate (q2Routed s i dup retain id topic payload me).1 i).1 i).2,
+      ∃ pk, x = Out.wrote (getObj s i).conn pk := by
+  have := nextImmediate_twice_out (q2Routed s i dup retain id topic payload me).1 i
+  rw [q2Routed_conn] at this
+  exact this
+
+/-- … and it files the PUBREC record: the exchange is open afterwards, its record is `pubrecMsg s id` (type 5, the
+    identifier, created NOW, expiry NOW + the server's maximum message expiry) -/
+theorem C08_accepted_qos2_opens (s : Server) (conn i : Nat) (dup retain : Bool) (id : Nat) (topic payload : Str)
+    (me : Nat) (cid : Str) (hw : WF s) (hc : assocGet s.connOf conn = some i) (h : AcceptedQ2 s i id topic)
+    (hreg : assocGet s.clients cid = some i) :
+    InOpenRec (step s (.recv conn (.publish 2 dup retain id topic payload me none))).1 cid id (pubrecMsg s id) ∧
+    InOpen (step s (.recv conn (.publish 2 dup retain id topic payload me none))).1 cid id := by
+  have := step_recv_publish_q2_open s conn i dup retain id topic payload me cid hw hc h hreg
+  exact ⟨this, (InOpen_iff _ cid id).mpr ⟨_, this⟩⟩
+
+/-- **C08, the retransmission, op level.**  While the exchange `id` of `cid` is open (`InOpen`), a QoS 2 PUBLISH with
+    that identifier on the connection of the session's object `i` (gates `RetransmitGates`: live network client, valid
+    topic, receive quota left, write permission — those of the original publish):
+    * the op is PUBREC with reason 0x91 to THAT connection (F08: a failure code to an MQTT 5 client; an MQTT 3 client
+      is written a plain PUBREC — `renderAck` puts reason codes on the wire for version 5 only), followed by the release
+      tail, and the state is the state before but for those releases: neither `publishToSubscribers` nor `retainMsg`
+      is called;
+    * every output is a write to that connection (so: no `Out.inline`, no write to any subscriber);
+    * every output other than the PUBREC is one of the PUBLISHER's own deferred in-flight messages (`expiry < 0`) being
+      released — never the retransmitted message;
+    * the retained store, the index and every other object (with its in-flight records) are unchanged. -/
+theorem C08_retransmit_not_forwarded_op (s : Server) (conn i : Nat) (dup retain : Bool) (id : Nat) (topic payload : Str)
+    (me : Nat) (cid : Str) (hc : assocGet s.connOf conn = some i) (hreg : assocGet s.clients cid = some i)
+    (hopen : InOpen s cid id) (h : RetransmitGates s i id topic) :
+    step s (.recv conn (.publish 2 dup retain id topic payload me none)) =
+      ((nextImmediate (nextImmediate s i).1 i).1,
+       [Out.wrote (getObj s i).conn (.ack (getObj s i).ver 5 id 0x91)] ++ (nextImmediate s i).2 ++
+       (nextImmediate (nextImmediate s i).1 i).2) ∧
+    (∀ x ∈ (step s (.recv conn (.publish 2 dup retain id topic payload me none))).2,
+      ∃ pk, x = Out.wrote (getObj s i).conn pk) ∧
+    (∀ x ∈ (step s (.recv conn (.publish 2 dup retain id topic payload me none))).2,
+      x = Out.wrote (getObj s i).conn (.ack (getObj s i).ver 5 id 0x91) ∨
+      ∃ m ∈ (getObj s i).inflight, m.expiry < 0 ∧ x ∈ writeMsg s i m) ∧
+    (step s (.recv conn (.publish 2 dup retain id topic payload me none))).1.rmsgs = s.rmsgs ∧
+    (step s (.recv conn (.publish 2 dup retain id topic payload me none))).1.topics = s.topics ∧
+    (∀ x, x ≠ i → getObj (step s (.recv conn (.publish 2 dup retain id topic payload me none))).1 x = getObj s x) := by
+  obtain ⟨pki, hrec, ht, _⟩ := hopen.rec_at hreg
+  have e := step_recv_publish_dup s conn i dup retain id topic payload me pki hc h hrec ht
+  obtain ⟨a1, a2, a3⟩ := nextImmediate_store s i
+  obtain ⟨b1, b2, b3⟩ := nextImmediate_store (nextImmediate s i).1 i
+  refine ⟨e, ?_, ?_, ?_, ?_, ?_⟩
+  · rw [e]
+    intro x hx
+    rw [List.append_assoc] at hx
+    rcases List.mem_append.mp hx with hx | hx
+    · rw [List.mem_singleton] at hx; exact ⟨_, hx⟩
+    · exact (nextImmediate_twice_out s i).2 x hx
+  · rw [e]
+    intro x hx
+    rw [List.append_assoc] at hx
+    rcases List.mem_append.mp hx with hx | hx
+    · rw [List.mem_singleton] at hx; exact Or.inl hx
+    · exact Or.inr (nextImmediate_twice_deferred s i x hx)
+  · rw [e]; exact b1.trans a1
+  · rw [e]; exact b2.trans a2
+  · rw [e]; intro x hx; exact (b3 x hx).trans (a3 x hx)
+
+/-- … and when the publisher holds no deferred message (`0 ≤ expiry` for all its in-flight records): the op is that one
+    PUBREC and NOTHING else — the whole broker state is unchanged (no `.wrote _ (.publish …)`, no `Out.inline`, `rmsgs`,
+    index and all in-flight records as before) -/
+theorem C08_retransmit_not_forwarded_op_quiet (s : Server) (conn i : Nat) (dup retain : Bool) (id : Nat)
+    (topic payload : Str) (me : Nat) (cid : Str) (hc : assocGet s.connOf conn = some i)
+    (hreg : assocGet s.clients cid = some i) (hopen : InOpen s cid id) (h : RetransmitGates s i id topic)
+    (hd : ∀ m ∈ (getObj s i).inflight, 0 ≤ m.expiry) :
+    step s (.recv conn (.publish 2 dup retain id topic payload me none)) =
+      (s, [Out.wrote (getObj s i).conn (.ack (getObj s i).ver 5 id 0x91)]) := by
+  obtain ⟨pki, hrec, ht, _⟩ := hopen.rec_at hreg
+  exact step_recv_publish_dup_quiet s conn i dup retain id topic payload me pki hc h hrec ht hd
+
+/-- the answer an MQTT 3 publisher sees: the reason code is not on the wire -/
+theorem C08_retransmit_render_v3 (id : Nat) : (WPk.ack 4 5 id 0x91).render = (WPk.ack 4 5 id 0).render := by
+  simp [WPk.render, renderAck]
+
+/-! ## Forwarded exactly once, over histories
+
+A sequential history `pre ++ [PUBLISH q2 k] ++ mid ++ [PUBREL k]`: the PUBLISH is accepted in the state `s0` after `pre`;
+no op of `mid` is in `InEnds` (`InNoEnds` — retransmissions of the PUBLISH are NOT in `InEnds`, so `mid` may contain any
+number of them, on the original connection or, after a reconnect with session present, on a new one).  "Forwarded
+exactly once" is stated as the facts: (1) the first PUBLISH is answered PUBREC 0x00 and routed by ONE call of
+`publishToSubscribers`; (2) the exchange is open in every state of `mid`; (3) every retransmission in `mid` (a QoS 2
+PUBLISH with identifier `k` on a connection of the session that passes `RetransmitGates`) writes to its own connection
+only — the PUBREC 0x91 and releases of the publisher's own deferred messages — and leaves the retained store, the index
+and every other object untouched: it calls neither `publishToSubscribers` nor `retainMsg`; (4) so does the PUBREL, which
+is answered PUBCOMP and closes the exchange (the next PUBLISH with identifier `k` is a new message).
+A copy of the message for the PUBLISHER itself (it subscribes to its own topic) that flow control deferred is a record the
+first op filed; when a later op of the publisher releases it, that is the one copy of (1) being written, not a second
+forwarding. -/
+
+/-- **C08, forwarded exactly once** — from any well-formed state `s0` satisfying the index/session invariant. -/
+theorem C08_forwarded_exactly_once (s0 : Server) (hw : WF s0) (hsync : SyncInv s0) (mid : List Op)
+    (conn i k : Nat) (dup retain : Bool) (topic payload : Str) (me : Nat) (cid : Str)
+    (hf : OpsFresh s0 (.recv conn (.publish 2 dup retain k topic payload me none) :: mid))
+    (hok : OpsSchedOK s0 (.recv conn (.publish 2 dup retain k topic payload me none) :: mid))
+    (hc : assocGet s0.connOf conn = some i) (hreg : assocGet s0.clients cid = some i)
+    (hacc : AcceptedQ2 s0 i k topic)
+    (hmid : InNoEnds (step s0 (.recv conn (.publish 2 dup retain k topic payload me none))).1 cid k mid) :
+    -- (1) the first PUBLISH: PUBREC 0x00 first, ONE fan-out, the release tail
+    (step s0 (.recv conn (.publish 2 dup retain k topic payload me none))).2 =
+      [Out.wrote (getObj s0 i).conn (.ack (getObj s0 i).ver 5 k 0)] ++ (q2Routed s0 i dup retain k topic payload me).2 ++
+       (nextImmediate (q2Routed s0 i dup retain k topic payload me).1 i).2 ++
+       (nextImmediate (nextImmediate (q2Routed s0 i dup retain k topic payload me).1 i).1 i).2 ∧
+    -- (2) the exchange is open in every state of `mid`
+    (∀ a b, mid = a ++ b →
+      InOpen (run (step s0 (.recv conn (.publish 2 dup retain k topic payload me none))).1 a) cid k) ∧
+    -- (3) no retransmission in `mid` is forwarded
+    (∀ a b conn' i' d r t p me', mid = a ++ [.recv conn' (.publish 2 d r k t p me' none)] ++ b →
+      assocGet (run (step s0 (.recv conn (.publish 2 dup retain k topic payload me none))).1 a).connOf conn' = some i' →
+      assocGet (run (step s0 (.recv conn (.publish 2 dup retain k topic payload me none))).1 a).clients cid = some i' →
+      RetransmitGates (run (step s0 (.recv conn (.publish 2 dup retain k topic payload me none))).1 a) i' k t →
+      (∀ x ∈ (step (run (step s0 (.recv conn (.publish 2 dup retain k topic payload me none))).1 a)
+            (.recv conn' (.publish 2 d r k t p me' none))).2,
+        x = Out.wrote (getObj (run (step s0 (.recv conn (.publish 2 dup retain k topic payload me none))).1 a) i').conn
+              (.ack (getObj (run (step s0 (.recv conn (.publish 2 dup retain k topic payload me none))).1 a) i').ver 5 k 0x91) ∨
+        ∃ m ∈ (getObj (run (step s0 (.recv conn (.publish 2 dup retain k topic payload me none))).1 a) i').inflight,
+          m.expiry < 0 ∧
+          x ∈ writeMsg (run (step s0 (.recv conn (.publish 2 dup retain k topic payload me none))).1 a) i' m) ∧
+      (step (run (step s0 (.recv conn (.publish 2 dup retain k topic payload me none))).1 a)
+          (.recv conn' (.publish 2 d r k t p me' none))).1.rmsgs =
+        (run (step s0 (.recv conn (.publish 2 dup retain k topic payload me none))).1 a).rmsgs ∧
+      (step (run (step s0 (.recv conn (.publish 2 dup retain k topic payload me none))).1 a)
+          (.recv conn' (.publish 2 d r k t p me' none))).1.topics =
+        (run (step s0 (.recv conn (.publish 2 dup retain k topic payload me none))).1 a).topics ∧
+      (∀ x, x ≠ i' →
+        getObj (step (run (step s0 (.recv conn (.publish 2 dup retain k topic payload me none))).1 a)
+          (.recv conn' (.publish 2 d r k t p me' none))).1 x =
+        getObj (run (step s0 (.recv conn (.publish 2 dup retain k topic payload me none))).1 a) x)) ∧
+    -- (4) the PUBREL after `mid`: PUBCOMP to the publisher, the exchange closed, nothing routed
+    (∀ conn' i',
+      assocGet (run (step s0 (.recv conn (.publish 2 dup retain k topic payload me none))).1 mid).connOf conn' = some i' →
+      assocGet (run (step s0 (.recv conn (.publish 2 dup retain k topic payload me none))).1 mid).clients cid = some i' →
+      (getObj (run (step s0 (.recv conn (.publish 2 dup retain k topic payload me none))).1 mid) i').isOpen = true →
+      (getObj (run (step s0 (.recv conn (.publish 2 dup retain k topic payload me none))).1 mid) i').peerGone = false →
+      (getObj (run (step s0 (.recv conn (.publish 2 dup retain k topic payload me none))).1 mid) i').inline = false →
+      ¬ InOpen (step (run (step s0 (.recv conn (.publish 2 dup retain k topic payload me none))).1 mid)
+          (.recv conn' (.pubrel k 0))).1 cid k ∧
+      (step (run (step s0 (.recv conn (.publish 2 dup retain k topic payload me none))).1 mid)
+          (.recv conn' (.pubrel k 0))).1.rmsgs =
+        (run (step s0 (.recv conn (.publish 2 dup retain k topic payload me none))).1 mid).rmsgs ∧
+      (step (run (step s0 (.recv conn (.publish 2 dup retain k topic payload me none))).1 mid)
+          (.recv conn' (.pubrel k 0))).1.topics =
+        (run (step s0 (.recv conn (.publish 2 dup retain k topic payload me none))).1 mid).topics ∧
+      (∀ x, x ≠ i' →
+        getObj (step (run (step s0 (.recv conn (.publish 2 dup retain k topic payload me none))).1 mid)
+          (.recv conn' (.pubrel k 0))).1 x =
+        getObj (run (step s0 (.recv conn (.publish 2 dup retain k topic payload me none))).1 mid) x) ∧
+      (∀ x ∈ (step (run (step s0 (.recv conn (.publish 2 dup retain k topic payload me none))).1 mid)
+          (.recv conn' (.pubrel k 0))).2,
+        ∃ pk, x = Out.wrote
+          (getObj (run (step s0 (.recv conn (.publish 2 dup retain k topic payload me none))).1 mid) i').conn pk)) := by
+  generalize hop : Op.recv conn (.publish 2 dup retain k topic payload me none) = op at hf hok hmid ⊢
+  have e1 := congrArg Prod.snd (C08_accepted_qos2_shape s0 conn i dup retain k topic payload me hc hacc)
+  rw [hop] at e1
+  have hopen1 : InOpen (step s0 op).1 cid k := by
+    rw [← hop]
+    exact (C08_accepted_qos2_opens s0 conn i dup retain k topic payload me cid hw hc hacc hreg).2
+  generalize hs1 : (step s0 op).1 = s1 at hf hok hmid hopen1 ⊢
+  have w1 : WF s1 := hs1 ▸ WF_step s0 op hw hf.1
+  have y1 : SyncInv s1 := hs1 ▸ SyncInv_step s0 op hsync hw hf.1 hok.1
+  have f1 : OpsFresh s1 mid := hs1 ▸ hf.2
+  have o1 : OpsSchedOK s1 mid := hs1 ▸ hok.2
+  have open_at : ∀ a b, mid = a ++ b → InOpen (run s1 a) cid k := by
+    intro a b hab
+    rw [hab] at f1 o1 hmid
+    exact C08_inbound_record_survives_run s1 a cid k w1 y1 (q08_OpsFresh_app f1).1 (q08_OpsSchedOK_app o1).1 hopen1
+      (InNoEnds_app hmid).1
+  refine ⟨e1, open_at, ?_, ?_⟩
+  · intro a b conn' i' d r t p me' hab hc' hreg' hg
+    have ho := open_at a _ (by rw [hab, List.append_assoc])
+    obtain ⟨_, _, h3, h4, h5, h6⟩ := C08_retransmit_not_forwarded_op (run s1 a) conn' i' d r k t p me' cid hc' hreg' ho hg
+    exact ⟨h3, h4, h5, h6⟩
+  · intro conn' i' hc' hreg' hopn hpeer hin
+    have ho := open_at mid [] (List.append_nil mid).symm
+    exact step_recv_pubrel_closes (run s1 mid) conn' i' k cid hc' hreg' ho hopn hpeer hin
+
+/-- **C08, forwarded exactly once, histories from the initial state** `pre ++ [PUBLISH q2 k] ++ mid` (++ `[PUBREL k]`:
+    clause (4)): the conclusions of `C08_forwarded_exactly_once` for `s0 = run (init caps) pre`. -/
+theorem C08_forwarded_exactly_once_seq (caps : Caps) (pre mid : List Op)
+    (conn i k : Nat) (dup retain : Bool) (topic payload : Str) (me : Nat) (cid : Str)
+    (hf : OpsFresh (init caps) (pre ++ (.recv conn (.publish 2 dup retain k topic payload me none) :: mid)))
+    (hok : OpsSchedOK (init caps) (pre ++ (.recv conn (.publish 2 dup retain k topic payload me none) :: mid)))
+    (hc : assocGet (run (init caps) pre).connOf conn = some i)
+    (hreg : assocGet (run (init caps) pre).clients cid = some i)
+    (hacc : AcceptedQ2 (run (init caps) pre) i k topic)
+    (hmid : InNoEnds (step (run (init caps) pre) (.recv conn (.publish 2 dup retain k topic payload me none))).1 cid k mid) :
+    (step (run (init caps) pre) (.recv conn (.publish 2 dup retain k topic payload me none))).2 =
+      [Out.wrote (getObj (run (init caps) pre) i).conn (.ack (getObj (run (init caps) pre) i).ver 5 k 0)] ++
+       (q2Routed (run (init caps) pre) i dup retain k topic payload me).2 ++
+       (nextImmediate (q2Routed (run (init caps) pre) i dup retain k topic payload me).1 i).2 ++
+       (nextImmediate (nextImmediate (q2Routed (run (init caps) pre) i dup retain k topic payload me).1 i).1 i).2 ∧
+    (∀ a b, mid = a ++ b →
+      InOpen (run (init caps) (pre ++ (.recv conn (.publish 2 dup retain k topic payload me none) :: a))) cid k) := by
+  obtain ⟨f1, f2⟩ := q08_OpsFresh_app hf
+  obtain ⟨o1, o2⟩ := q08_OpsSchedOK_app hok
+  obtain ⟨h1, h2, _, _⟩ := C08_forwarded_exactly_once (run (init caps) pre) (WF_run caps pre f1) (SyncInv_run caps pre f1 o1)
+    mid conn i k dup retain topic payload me cid f2 o2 hc hreg hacc hmid
+  refine ⟨h1, fun a b hab => ?_⟩
+  rw [q08_run_append]
+  exact h2 a b hab
+
+set_option maxRecDepth 100000 in
+/-- the history of `Mochi/Props/C08Demo.lean` is an instance of `C08_forwarded_exactly_once_seq` (`pre` = ops 0–2, the
+    PUBLISH = op 3, `mid` = ops 4–7: retransmission, drop, resumption, retransmission): its hypotheses hold, so the
+    exchange is open in every state of `mid` -/
+theorem C08_demo_history_instance :
+    ∀ a b, (c08History.drop 4).take 4 = a ++ b →
+      InOpen (run (init {}) (c08History.take 3 ++ (.recv 2 (.publish 2 false false 7 [116] [97] 0 none) :: a))) [112] 7 :=
+  (C08_forwarded_exactly_once_seq {} (c08History.take 3) ((c08History.drop 4).take 4) 2 2 7 false false [116] [97] 0 [112]
+    (by decide) (by decide) (by decide) (by decide)
+    ⟨by decide, by decide, by decide, by decide, by decide, by decide, by decide, by decide, by decide, by decide,
+      by decide⟩
+    (by decide)).2
 
 end Mochi.Broker
